@@ -1311,10 +1311,16 @@ class Vector():
 		# Build key for each element
 		# The None flag is flipped under reverse so that reversal puts None back
 		# where na_last says (same scheme as Table.sort_by)
-		if na_last:
-			key_fn = lambda x: ((x is None) if not reverse else (x is not None), x if x is not None else 0)
+		# (a <datetime> vector may hold plain dates - the date-to-datetime widening - which Python
+		# cannot order against datetimes: each is compared as that day at midnight)
+		if self._dtype is not None and self._dtype.kind is datetime:
+			value_of = _at_midnight
 		else:
-			key_fn = lambda x: ((x is not None) if not reverse else (x is None), x if x is not None else 0)
+			value_of = lambda x: x
+		if na_last:
+			key_fn = lambda x: ((x is None) if not reverse else (x is not None), value_of(x) if x is not None else 0)
+		else:
+			key_fn = lambda x: ((x is not None) if not reverse else (x is None), value_of(x) if x is not None else 0)
 		
 		new_values = tuple(sorted(self._underlying, key=key_fn, reverse=reverse))
 
